@@ -280,29 +280,7 @@ class Session:
                                            f"identically parsed twin (observations equal)", self.rc())
 
 
-def _unsorted_variant(spec, draw):
-    spec = dict(spec)
-    # the fastest tempo of the original map: every tick is then reached no later than before, so all
-    # times stay inside the domain (a slower single tempo could overflow timedelta)
-    fastest = max(it[2] for it in spec["sync"] if it[1] == "B")
-    spec["sync"] = [[0, "TS", 4], [0, "B", fastest]]
-    tracks = {}
-    for h, items in spec["tracks"].items():
-        groups: dict = {}
-        for it in items:
-            if it[1] == "N" and it[2] == 5:
-                continue            # no forced flags: a forced first note is a documented ValueError
-            groups.setdefault(it[0], []).append(it)
-        order = list(groups)
-        if len(order) > 1:
-            order = list(draw(st.permutations(order)))
-        tracks[h] = [it for t in order for it in groups[t]]
-    spec["tracks"] = tracks
-    ev = list(spec["events"])
-    if len(ev) > 1:
-        ev = list(draw(st.permutations(ev)))
-    spec["events"] = ev
-    return spec
+_unsorted_variant = G.unsorted_variant
 
 
 def check_history(ctx: Ctx, case) -> None:
